@@ -2,6 +2,7 @@ import argparse
 import dis
 import importlib.util
 import pathlib
+import tokenize
 from json import dumps
 from os import linesep
 from types import CodeType
@@ -85,8 +86,11 @@ def main():
         source = eval(eval_, {"linesep": linesep})
         code = compile(cast(str, source), "<string>", "exec")
     elif file is not None:
-        source = file.read_text()
-        code = compile(cast(str, source), str(file), "exec")
+        # Compile the bytes of the file, as running it does, so that a byte order mark or
+        # a PEP 263 coding cookie is honoured, and decode the source text the same way
+        code = compile(file.read_bytes(), str(file), "exec")
+        with tokenize.open(file) as f:
+            source = f.read()
     elif cmd is not None:
         # replace escaped newlines with newlines
         source = cmd.replace("\\n", "\n")
